@@ -51,6 +51,10 @@ def gen_keys(rng, n, order):
         return [5] * n
     krange = rng.choice([2, 3, 10, max(n, 1), 1000])
     ks = [rng.randrange(krange) for _ in range(n)]
+    if rng.random() < 0.25:
+        # keys of both signs across the fixnum / bignum boundary (the C fast path compares representations directly)
+        scale = rng.choice([10 ** 18, 3 * 10 ** 18 + 1, 10 ** 25, 2 ** 62])
+        ks = [(k - krange // 2) * scale + rng.choice([0, 0, 1, -1]) for k in ks]
     if order == "sorted":
         ks.sort()
     elif order == "reversed":
@@ -73,7 +77,8 @@ def sort_case(rng):
                      "s132:list-delete-neighbor-dups", "s132:vector-find-median", "s132:vector-select!"])
     cmpk = rng.choice(["closure", "closure", "opcode<", "opcode>", "key"])
     cont = rng.choice(["list", "vector"])
-    return {"kind": "sort", "fn": fn, "cmp": cmpk, "cont": cont, "keys": keys, "mixed": rng.random() < 0.3}
+    wide = any(abs(k) > 10 ** 15 for k in keys)
+    return {"kind": "sort", "fn": fn, "cmp": cmpk, "cont": cont, "keys": keys, "mixed": rng.random() < 0.3 and not wide}
 
 
 def render_sort(case):
@@ -173,7 +178,7 @@ def judge_sort(case, mode, txt):
             got = v
             if sorted(got) != sorted(t[0] for t in inp):
                 return "result is not a permutation of the input: %r" % (got[:30],)
-            vals = [float(x) for x in got]
+            vals = [int(x) if re.match(r"-?\d+$", x) else float(x) for x in got]
             if any((vals[j] > vals[j + 1]) if cmpk == "opcode<" else (vals[j] < vals[j + 1]) for j in range(len(vals) - 1)):
                 return "result is not ordered: %r" % (got[:30],)
             if stable and got != [t[0] for t in exp]:
@@ -228,13 +233,13 @@ def judge_sort(case, mode, txt):
             gotv = float(eval(v.replace("/", "/1.0/") if "/" in v else v))
         except Exception:
             return "median unparsable %r" % v
-        if abs(gotv - want) > 1e-9:
+        if abs(gotv - want) > 1e-9 * max(1.0, abs(want)):
             return "median %r, expected %r" % (v, want)
         return None
     if mode == "select":
         if not keys:
             return None
-        if int(float(v)) != sorted(keys)[len(keys) // 2]:
+        if (int(v) if re.match(r"-?\d+$", v) else int(float(v))) != sorted(keys)[len(keys) // 2]:
             return "select!: got %s expected %d" % (v, sorted(keys)[len(keys) // 2])
         return None
     return None
@@ -362,9 +367,28 @@ def hist_mapping(ch):
     names = ["m0"]
     h.lines.append("(define m0 (mapping cmp))")
     for _ in range(8 + ch.n(50)):
-        op = ch.pick(["set", "set", "set", "delete", "ref", "contains", "size", "alist", "old", "update", "adjoin", "min", "fold", "union", "bulk"])
+        op = ch.pick(["set", "set", "set", "delete", "ref", "contains", "size", "alist", "old", "update", "adjoin", "min", "fold", "union", "bulk", "drain", "drain"])
         a = ch.pick(names)
         k = ch.n(30)
+        if op == "drain":
+            # several deletions from a larger tree (the rebalancing cases of deletion need depth), then a full audit
+            big = [nm for nm in names if len(vers[nm]) >= 11]
+            if not big:
+                continue
+            a = ch.pick(big)
+            ks_all = sorted(vers[a])
+            dels = [ks_all[ch.n(len(ks_all))] if ch.p(0.8) else ch.n(90) for _ in range(1 + ch.n(4))]
+            new = "m%d" % len(names)
+            h.lines.append("(define %s (l:fold (lambda (i acc) (mapping-delete acc i)) %s '(%s)))" % (new, a, " ".join(str(d) for d in dels)))
+            m = dict(vers[a])
+            for d in dels:
+                m.pop(d, None)
+            vers[new] = m
+            names.append(new)
+            h.updates += 1
+            h.emit("(list (mapping-size %s) (mapping->alist %s) (map (lambda (k) (mapping-ref/default %s k 'none)) '(%s)))" % (new, new, new, " ".join(str(x) for x in ks_all)),
+                   "(%d (%s) (%s))" % (len(m), " ".join("(%d . %d)" % kv for kv in sorted(m.items())), " ".join(str(m.get(x, "none")) for x in ks_all)))
+            continue
         if op in ("set", "delete", "adjoin", "update", "union", "bulk"):
             new = "m%d" % len(names)
             m = dict(vers[a])
